@@ -66,6 +66,14 @@ def family(name, k, root):
     if name == 'diamond-disk-debuglog':
         # as diamond-disk, measured with DEBUG logging switched on and a handler that formats every record
         return family('diamond-disk', k, root)
+    if name == 'stack-groupby-ram':
+        # dataset-wide layers stacked on each other (each groups by a function of a field of the previous one), then a cache layer:
+        # building walks the graphs nested inside the edges of the layers below
+        return {'k': 'chain', 'flavour': 'chain', 'layers': [src] + [{'k': 'groupby', 'by': {'f': 'shorter', 'args': ['image']}} for j in range(k)] +
+                [{'k': 'ram', 'names': None, 'size': None}]}, 'other', 'i1'
+    if name == 'stack-filter-disk':
+        return {'k': 'chain', 'flavour': 'chain', 'layers': [src] + [{'k': 'filter', 'f': f'cpred{j}', 'args': ['image'], 'table': []} for j in range(k)] +
+                [{'k': 'disk', 'names': ['image', 'ids'], 'root': 0}]}, 'ids', None
     if name == 'chain':
         layers = [src] + [{'k': 'transform', 'cls': f'Ch', 'fields': {'image': {'args': ['image'], 'f': 'ch.image'}}, 'params': {},
                            'cargs': {}, 'defaults': {}, 'inherit': True} for j in range(k)]
@@ -78,7 +86,8 @@ def family(name, k, root):
     raise ValueError(name)
 
 
-FAMILIES = ['diamond', 'diamond-ram', 'diamond-disk', 'diamond-disk-debuglog', 'diamond-meta', 'diamond-filter', 'diamond-groupby', 'diamond-const-groupby', 'chain', 'fanin']
+NOCALL = {'stack-groupby-ram'}      # the symbolic grouping function does not return ids: construction and compilation only
+FAMILIES = ['stack-groupby-ram', 'stack-filter-disk', 'diamond', 'diamond-ram', 'diamond-disk', 'diamond-disk-debuglog', 'diamond-meta', 'diamond-filter', 'diamond-groupby', 'diamond-const-groupby', 'chain', 'fanin']
 
 
 def measure_family(name, sizes, call_cached=True):
@@ -116,7 +125,7 @@ def _measure_family(name, sizes, call_cached, out):
             try:
                 layer, rec['build'] = c.measure(lambda: b.layer(desc))
                 fn, rec['compile'] = c.measure(lambda: layer._compile(field))
-                if name == 'diamond-ram' and not call_cached:
+                if (name == 'diamond-ram' and not call_cached) or name in NOCALL:
                     out[k] = rec
                     continue
                 args = [] if arg is None else [arg]
